@@ -556,11 +556,22 @@ theorem inv_job_step_any {cfg : Cfg} (hg : cfg.Good) {s : St} {d : Disk} (h : In
       | failEffect => rw [stepJob_rm_failEffect (Or.inr (Or.inr hpc))] at hs; exact inv_job_step hg h hj hs
   | done => rw [stepJob_no_op o (by simp [hpc])] at hs; exact inv_job_step hg h hj hs
 
-/-- every step of the machine, with storage faults in the jobs (`Act.jobFaultsOnly`) -/
-theorem inv_step_faults {cfg : Cfg} (hg : cfg.Good) {s : St} {d : Disk} (h : Inv cfg s d) {a : Act}
-    (ha : a.jobFaultsOnly s = true) {s' : St} {d' : Disk} (hs : step cfg s d a = some (s', d')) : Inv cfg s' d' := by
-  simp only [Act.jobFaultsOnly, Bool.and_eq_true] at ha
-  obtain ⟨⟨hw, h10⟩, h26⟩ := ha
+/-- every step of the machine under storage faults: every failure in a job except D10 and D26, every failure of a
+    journal `Write`/`Sync` of the write path, a `newMem` whose `Create` fails without effect; a transaction is
+    opened only when no record of a failed write may be waiting in a journal -/
+theorem inv_step_faults {cfg : Cfg} (hg : cfg.Good) {s : St} {d : Disk}
+    (h : Inv cfg s d) {a : Act} (hcs : a.writerFaultFree = true ∨ cfg.consumeSeqOnJournalError = true)
+    (ha : a.faultsOK (s, d) = true) {s' : St} {d' : Disk}
+    (hs : step cfg s d a = some (s', d')) : Inv cfg s' d' := by
+  simp only [Act.faultsOK, Bool.and_eq_true] at ha
+  obtain ⟨⟨⟨h10, h26⟩, hrc⟩, htc⟩ := ha
+  have hcl : a = .trBegin → s.everFailed = false ∨ ∀ p ∈ d.journals, s.stJn ≤ p.1 → p.2.all = [] := by
+    intro e
+    subst e
+    simp only [Act.trOnCleanJournals, Bool.or_eq_true, Bool.not_eq_true'] at htc
+    rcases htc with h1 | h1
+    · exact Or.inl h1
+    · exact Or.inr (cleanJournals_iff.1 h1)
   cases a with
   | job rot o =>
     simp only [step] at hs
@@ -570,25 +581,44 @@ theorem inv_step_faults {cfg : Cfg} (hg : cfg.Good) {s : St} {d : Disk} (h : Inv
       rw [hj] at hs
       exact inv_job_step_any hg h hj h10 h26 hs
   | wAppend recs sync o =>
-    exact inv_step hg h (a := .wAppend recs sync o) (by simpa [Act.faultFree, Act.writerFaultFree] using hw) hs
-  | wSync o => exact inv_step hg h (a := .wSync o) (by simpa [Act.faultFree, Act.writerFaultFree] using hw) hs
-  | rotate o => exact inv_step hg h (a := .rotate o) (by simpa [Act.faultFree, Act.writerFaultFree] using hw) hs
-  | wApply => exact inv_step hg h (a := .wApply) rfl hs
-  | wPublish => exact inv_step hg h (a := .wPublish) rfl hs
-  | wAck => exact inv_step hg h (a := .wAck) rfl hs
-  | flushStart => exact inv_step hg h (a := .flushStart) rfl hs
-  | crash ch => exact inv_step hg h (a := .crash ch) rfl hs
-  | exit => exact inv_step hg h (a := .exit) rfl hs
-  | recOpen => exact inv_step hg h (a := .recOpen) rfl hs
-  | recStep => exact inv_step hg h (a := .recStep) rfl hs
-  | compactStart i => exact inv_step hg h (a := .compactStart i) rfl hs
-  | trBegin => exact inv_step hg h (a := .trBegin) rfl hs
-  | trPut r => exact inv_step hg h (a := .trPut r) rfl hs
-  | trCommit => exact inv_step hg h (a := .trCommit) rfl hs
-  | trDiscard => exact inv_step hg h (a := .trDiscard) rfl hs
+    refine inv_wAppend_any h (fun hf => ?_) hs
+    rcases hcs with h1 | h1
+    · cases o <;> simp_all [Act.writerFaultFree, Outcome.failed]
+    · exact h1
+  | wSync o =>
+    refine inv_wSync_any h (fun hf => ?_) hs
+    rcases hcs with h1 | h1
+    · cases o <;> simp_all [Act.writerFaultFree, Outcome.failed]
+    · exact h1
+  | rotate o =>
+    cases o with
+    | ok => exact inv_step hg h (a := .rotate .ok) rfl (fun e => nomatch e) hs
+    | failEffect => simp [Act.rotateCreateOK] at hrc
+    | failNoEffect =>
+      -- `Create` failed, nothing happened: `newMem` returns the error
+      simp only [step, stepWriter] at hs
+      split at hs
+      · simp only [Outcome.failed, if_true, Disk.exec, Option.some.injEq, Prod.mk.injEq] at hs
+        obtain ⟨rfl, rfl⟩ := hs
+        exact h
+      · cases hs
+  | wApply => exact inv_step hg h (a := .wApply) rfl (fun e => nomatch e) hs
+  | wPublish => exact inv_step hg h (a := .wPublish) rfl (fun e => nomatch e) hs
+  | wAck => exact inv_step hg h (a := .wAck) rfl (fun e => nomatch e) hs
+  | flushStart => exact inv_step hg h (a := .flushStart) rfl (fun e => nomatch e) hs
+  | crash ch => exact inv_step hg h (a := .crash ch) rfl (fun e => nomatch e) hs
+  | exit => exact inv_step hg h (a := .exit) rfl (fun e => nomatch e) hs
+  | recOpen => exact inv_step hg h (a := .recOpen) rfl (fun e => nomatch e) hs
+  | recStep => exact inv_step hg h (a := .recStep) rfl (fun e => nomatch e) hs
+  | compactStart i => exact inv_step hg h (a := .compactStart i) rfl (fun e => nomatch e) hs
+  | trBegin => exact inv_step hg h (a := .trBegin) rfl hcl hs
+  | trPut r => exact inv_step hg h (a := .trPut r) rfl (fun e => nomatch e) hs
+  | trCommit => exact inv_step hg h (a := .trCommit) rfl (fun e => nomatch e) hs
+  | trDiscard => exact inv_step hg h (a := .trDiscard) rfl (fun e => nomatch e) hs
 
-theorem inv_run_faults {cfg : Cfg} (hg : cfg.Good) {sd sd' : St × Disk} (h : Inv cfg sd.1 sd.2) (as : List Act)
-    (hal : Allowed cfg Act.jobFaultsOnly sd as) (hr : run cfg sd as = some sd') : Inv cfg sd'.1 sd'.2 := by
+theorem inv_run_faults {cfg : Cfg} (hg : cfg.Good) (hcs : cfg.consumeSeqOnJournalError = true) {sd sd' : St × Disk}
+    (h : Inv cfg sd.1 sd.2) (as : List Act)
+    (hal : Allowed cfg Act.faultsOK sd as) (hr : run cfg sd as = some sd') : Inv cfg sd'.1 sd'.2 := by
   induction as generalizing sd with
   | nil =>
     simp only [run] at hr
@@ -604,6 +634,44 @@ theorem inv_run_faults {cfg : Cfg} (hg : cfg.Good) {sd sd' : St × Disk} (h : In
     | some sd1 =>
       rw [hst] at hr hrest
       simp only at hr hrest
-      exact ih (inv_step_faults hg h ha hst) hrest hr
+      exact ih (inv_step_faults hg h (Or.inr hcs) ha hst) hrest hr
+
+/-- the job faults alone (`Act.jobFaultsOnly`): no journal operation of the write path fails, the ghost flag stays
+    clear, no assumption on `consumeSeqOnJournalError` and none on transactions is needed -/
+theorem inv_run_jobFaults {cfg : Cfg} (hg : cfg.Good) {sd sd' : St × Disk} (h : Inv cfg sd.1 sd.2)
+    (hef : sd.1.everFailed = false) (as : List Act)
+    (hal : Allowed cfg (fun sd a => a.jobFaultsOnly sd.1) sd as) (hr : run cfg sd as = some sd') :
+    Inv cfg sd'.1 sd'.2 := by
+  induction as generalizing sd with
+  | nil =>
+    simp only [run] at hr
+    cases hr
+    exact h
+  | cons a as ih =>
+    simp only [run] at hr
+    unfold Allowed allowed at hal
+    rw [Bool.and_eq_true] at hal
+    obtain ⟨ha, hrest⟩ := hal
+    have ha' := ha
+    simp only [Act.jobFaultsOnly, Bool.and_eq_true] at ha'
+    cases hst : step cfg sd.1 sd.2 a with
+    | none => rw [hst] at hr; simp at hr
+    | some sd1 =>
+      rw [hst] at hr hrest
+      simp only at hr hrest
+      refine ih (inv_step_faults hg h (Or.inl ha'.1.1) ?_ hst) (step_everFailed ha'.1.1 hef hst) hrest hr
+      simp only [Act.faultsOK, Bool.and_eq_true]
+      refine ⟨⟨⟨ha'.1.2, ha'.2⟩, ?_⟩, ?_⟩
+      · have := ha'.1.1
+        cases a <;> simp_all [Act.rotateCreateOK, Act.writerFaultFree]
+      · cases a <;> simp [Act.trOnCleanJournals, hef]
+
+/-- the job faults alone (`Act.jobFaultsOnly`) are a special case -/
+theorem faultsOK_of_jobFaultsOnly {sd : St × Disk} {a : Act} (h : a.jobFaultsOnly sd.1 = true)
+    (ht : a.trOnCleanJournals sd = true) : a.faultsOK sd = true := by
+  simp only [Act.jobFaultsOnly, Act.faultsOK, Bool.and_eq_true] at h ⊢
+  obtain ⟨⟨hw, h10⟩, h26⟩ := h
+  refine ⟨⟨⟨h10, h26⟩, ?_⟩, ht⟩
+  cases a <;> simp_all [Act.rotateCreateOK, Act.writerFaultFree]
 
 end GoLevel.Dur
